@@ -1,2 +1,57 @@
-(* C12 theta part -- being written *)
-From DS Require Import Base.Prelude Model.Theta Model.ThetaCodec Spec.ThetaLayout.
+(* C12, theta part -- the compact theta images follow the cross-language layout.  Statements only;
+   proofs in Proofs/ThetaLayoutProofs.v.
+
+   Spec/ThetaLayout.v is the format as the Java/C++ libraries define it (DESIGN.md Appendix A),
+   written independently of the Rust code: [dec_spec sh bytes] the decoder to the abstract compact
+   sketch [tabs], [enc_spec v a] the encoder of every variant (V1, V2, V3 with/without the
+   SINGLE_ITEM flag, V4: one big-endian bit stream of entry_bits-bit deltas). *)
+From DS Require Import Base.Prelude Base.BitExp Model.Theta Model.ThetaCodec Spec.ThetaLayout.
+From DS Require Import Proofs.ThetaCodec Proofs.ThetaLayoutProofs.
+Open Scope N_scope.
+
+(* model_enc_conforms: the independent decoder recovers exactly the abstract state from what the
+   writers emit *)
+Theorem c12_theta_writer_conforms :
+  forall sh c, c_wf sh c -> dec_spec sh (c_serialize c) = Some (abs_of c).
+Proof. exact writer_conforms. Qed.
+
+Theorem c12_theta_compressed_writer_conforms :
+  forall sh c bs, c_wf sh c -> c_serialize_compressed c = Ok bs -> dec_spec sh bs = Some (abs_of c).
+Proof. exact compressed_writer_conforms. Qed.
+
+(* more precisely the emitted bytes ARE the specification's encoding: the blocks of 8 deltas
+   (unrolled packers) followed by the BitPacker tail are one continuous bit stream *)
+Theorem c12_theta_v3_bytes_are_spec :
+  forall sh c, c_wf sh c -> c_serialize c = enc_v3 false (abs_of c).
+Proof. exact model_v3_is_spec. Qed.
+
+Theorem c12_theta_v4_bytes_are_spec :
+  forall sh c, c_wf sh c -> c_is_suitable_for_compression c = true -> c_serialize_v4 c = Ok (enc_v4 (abs_of c)).
+Proof. exact model_v4_is_spec. Qed.
+
+(* dec_spec_enc_spec: the specification is consistent (its decoder inverts its encoder) *)
+Theorem c12_theta_spec_roundtrip_v3 :
+  forall sh sf a, abs_okb a = true -> dec_spec sh (enc_v3 sf a) = Some a.
+Proof. exact spec_roundtrip_v3. Qed.
+
+Theorem c12_theta_spec_roundtrip_v4 :
+  forall sh a, abs_okb a = true -> expressible V4 a = true -> dec_spec sh (enc_v4 a) = Some a.
+Proof. exact spec_roundtrip_v4. Qed.
+
+(* layout_glue: the constants the crate uses (re-read from the source on this run) are the specification's *)
+Theorem c12_theta_constants :
+  S_MAX_THETA = MAX_THETA /\ S_FAMILY_THETA = zN Gen.GenCodec.FAMILY_THETA_ID /\
+  S_READ_ONLY = zN Gen.GenTheta.FLAGS_IS_READ_ONLY /\ S_EMPTY = zN Gen.GenTheta.FLAGS_IS_EMPTY /\
+  S_COMPACT = zN Gen.GenTheta.FLAGS_IS_COMPACT /\ S_ORDERED = zN Gen.GenTheta.FLAGS_IS_ORDERED /\
+  zN Gen.GenTheta.UNCOMPRESSED_SERIAL_VERSION = 3 /\ zN Gen.GenTheta.COMPRESSED_SERIAL_VERSION = 4 /\
+  zN Gen.GenCodec.FAMILY_THETA_MIN_PRE_LONGS = 1 /\ zN Gen.GenCodec.FAMILY_THETA_MAX_PRE_LONGS = 3 /\
+  zN Gen.GenTheta.V2_PREAMBLE_EMPTY = 1 /\ zN Gen.GenTheta.V2_PREAMBLE_PRECISE = 2 /\ zN Gen.GenTheta.V2_PREAMBLE_ESTIMATE = 3 /\
+  BLOCK_WIDTH = 8.
+Proof. exact layout_constants. Qed.
+
+Example c12_theta_example :
+  let c := mkC [5; 100; 1000; 70000; 70001; 9000000000; 9000000001; 9000000002; 9000000007;
+                2305843009213693952; 2305843009213693953] 4611686018427387904 12345 true false in
+  c_serialize_v4 c = Ok (enc_v4 (abs_of c)) /\ dec_spec 12345 (enc_v4 (abs_of c)) = Some (abs_of c) /\
+  nth 3 (enc_v4 (abs_of c)) 0 = 61 /\ abs_okb (abs_of c) = true.
+Proof. vm_compute. repeat split; reflexivity. Qed.
